@@ -269,6 +269,17 @@ def r01_2(prog: Program, rep):
     rep.ob("R01.2", OBJ, sha.qual, "cached hash returned only when the dirty flag is clear", ok,
            "`return self._sha` is reachable without testing _needs_serialization: an edited object keeps its old id",
            g.nodes[rets[0]].line)
+    # a hash requested in an explicit format is never answered from the format-agnostic cache (the cache may hold
+    # the name under another algorithm, e.g. after loading from a SHA-256 store)
+    fmt_param = sha.node.args.args[1].arg if len(sha.node.args.args) > 1 else None
+    if fmt_param:
+        fmt_tests = {i for i, n in g.nodes.items() if n.kind == "test" and norm(n.ast).replace(" ", "") in
+                     (f"{fmt_param}isnotNone", f"{fmt_param}isNone")}
+        none_side = {i: ("false" if "isnot" in norm(g.nodes[i].ast).replace(" ", "") else "true") for i in fmt_tests}
+        r2 = reach(g, [g.entry], include_srcs=True, edge_ok=lambda a, b, l: not (a in none_side and l == none_side[a]))
+        rep.ob("R01.2", OBJ, sha.qual, f"a hash requested with an explicit `{fmt_param}` is always recomputed", bool(fmt_tests) and not any(x in r2 for x in rets),
+               f"`return self._sha` is reachable when `{fmt_param}` was given: the cache is not keyed by algorithm, so an object "
+               f"loaded from a store of another hash algorithm answers with that store's name", g.nodes[rets[0]].line)
     none_tests = {i for i, n in g.nodes.items() if n.kind == "test" and "self._sha is None" in norm(n.ast)}
     rep.ob("R01.2", OBJ, sha.qual, "missing hash is computed", bool(none_tests) and bool(recompute), "", sha.node.lineno)
     arc = prog.func(OBJ, "ShaFile.as_raw_chunks")
@@ -414,6 +425,51 @@ def r01_3(prog: Program, rep):
         rep.ob("R01.3", OBJ, k, f"header constant spells {v!r}", got == v, f"is {got!r}", m.consts[k].lineno if k in m.consts else 0)
 
 
+def r01_5(prog: Program, rep):
+    """Header folding: the writer prefixes each continuation line with exactly one space, the reader removes exactly
+    that prefix (accepted idioms: line[k:] with k == len(prefix), removeprefix; stripping *all* leading spaces is the
+    defect; any other shape is an analysis error)."""
+    m = prog.module(OBJ)
+    fm, pm = m.funcs.get("_format_message"), m.funcs.get("_parse_message")
+    if fm is None or pm is None:
+        raise AnalysisError("_format_message / _parse_message not found")
+    prefix = None
+    for y in ast.walk(fm.node):
+        if isinstance(y, ast.Yield) and isinstance(y.value, ast.BinOp) and isinstance(y.value.op, ast.Add):
+            left = y.value
+            while isinstance(left, ast.BinOp):
+                left = left.left
+            if isinstance(left, ast.Constant) and isinstance(left.value, bytes) and left.value.strip(b" ") == b"" and left.value:
+                prefix = left.value
+    if prefix is None:
+        raise AnalysisError("_format_message: continuation prefix not found")
+    rep.ob("R01.5", OBJ, fm.qual, "continuation lines are written with a one-space prefix", prefix == b" ", f"prefix {prefix!r}", fm.node.lineno)
+    verdict, why, line = None, "", pm.node.lineno
+    for br in [x for x in ast.walk(pm.node) if isinstance(x, ast.If) and "startswith" in norm(x.test)]:
+        tested = [c.value for c in ast.walk(br.test) if isinstance(c, ast.Constant) and isinstance(c.value, bytes)]
+        if tested != [prefix]:
+            continue
+        for c in [c for s_ in br.body for c in ast.walk(s_) if isinstance(c, ast.Call) and isinstance(c.func, ast.Attribute) and c.func.attr in ("append", "extend")]:
+            a = c.args[0]
+            line = c.lineno
+            if isinstance(a, ast.Subscript) and isinstance(a.slice, ast.Slice) and a.slice.upper is None and a.slice.lower is not None:
+                k = a.slice.lower
+                kv = k.value if isinstance(k, ast.Constant) else (len(prefix) if "len(" in norm(k) else None)
+                verdict = kv == len(prefix)
+                why = f"reader drops {kv} byte(s), writer added {len(prefix)}"
+            elif isinstance(a, ast.Call) and isinstance(a.func, ast.Attribute) and a.func.attr == "removeprefix":
+                verdict = True
+            elif isinstance(a, ast.Call) and isinstance(a.func, ast.Attribute) and a.func.attr in ("lstrip", "strip"):
+                verdict = False
+                why = f"`{norm(a)}` removes every leading space, the writer added exactly one: indented lines of a folded header " \
+                      f"(mergetag, multi-line extra header) lose their indentation and the object is rewritten with other bytes"
+            else:
+                raise AnalysisError(f"_parse_message: continuation handling `{norm(a, 60)}` is an idiom this rule does not know")
+    if verdict is None:
+        raise AnalysisError("_parse_message: continuation branch not found")
+    rep.ob("R01.5", OBJ, pm.qual, "the reader removes exactly the continuation prefix the writer adds", verdict, why, line)
+
+
 def r01_4(prog: Program, rep):
     m = prog.module(OBJ)
     # who feeds serialize_tree
@@ -479,6 +535,7 @@ def run(prog: Program, rep, tier="quick"):
     rep.rule("R01.2", "cached hash returned only under a clear dirty flag; reset on re-serialise; only ShaFile reads _sha")
     rep.rule("R01.3", "TABLE-AGREE: Commit/Tag header sets of serializer and parser(s); unknown headers kept/refused; "
                       "parsed attributes == serialised attributes")
+    rep.rule("R01.5", "TABLE-AGREE: header folding - the reader removes exactly the one-space prefix the writer adds")
     rep.rule("R01.4", "WHO-MAY + SIBLINGS-AGREE: single canonical tree ordering, Python key_entry == Rust cmp_with_suffix")
     rep.not_decided += ["parse(serialise(x)) == x over git's grammar", "byte equality with C git",
                         "timezone / identity edge cases", "header order preservation on rewrite"]
@@ -487,6 +544,7 @@ def run(prog: Program, rep, tier="quick"):
     r01_2(prog, rep)
     r01_3(prog, rep)
     r01_4(prog, rep)
+    r01_5(prog, rep)
     rep.floor("R01.1", 10)
     rep.floor("R01.2", 8)
     rep.floor("R01.3", 20)
